@@ -100,8 +100,18 @@ func gopfmt(path string, class, smart, mvgo bool) (err error) {
 	}
 	if mvgo {
 		newPath := strings.TrimSuffix(path, ".go") + ".xgo"
-		if err = os.WriteFile(newPath, target, 0666); err != nil {
-			return
+		// O_EXCL: never write over an existing file of that name
+		f, err := os.OpenFile(newPath, os.O_WRONLY|os.O_CREATE|os.O_EXCL, 0666)
+		if err != nil {
+			return err
+		}
+		_, err = f.Write(target)
+		if e := f.Close(); err == nil {
+			err = e
+		}
+		if err != nil {
+			os.Remove(newPath)
+			return err
 		}
 		return os.Remove(path)
 	}
